@@ -66,6 +66,23 @@ CLAIMED = {
          'A task poll is atomic; the peer is a script, not a real server; transport is in-memory (TransportSenderT/ReceiverT seam).'),
 }
 
+
+# additions of round 2 (appended to the level text)
+ROUND2 = {
+ 'C01': ' Round 2: server pings on the virtual clock (hook H6) in a sixth of the runs with a peer that is idle but answers pings for longer than the inactivity limit before the last message - the connection must keep serving.',
+ 'C03': ' Round 2: the simulated receive is not cancel-safe (a message is handed over in two steps; a dropped receive future loses it), client ping / inactivity timers tick on the virtual clock (hook H7) in a fifth of the runs, full-stack variant (library client over the library WebSocket transport against the library server) with real ping / pong frames.',
+ 'C04': ' Round 2: the instant at which stopped() resolves is a close instant (sends started after it must fail); 300 ms calls in flight at stop; handlers that return while a worker task keeps the sink.',
+ 'C05': ' Round 2: receive that is not cancel-safe, client ping / inactivity ticks (hook H7).',
+ 'C06': ' Round 2: the subscription callback may return while a spawned worker keeps the sink and its clones (the subscription stays active and keeps its slot until the worker lets go).',
+ 'C07': ' Round 2: direct tower calls whose Content-Length header understates the body.',
+ 'C08': ' Round 2: batch entries answered by slow asynchronous handlers (completion order differs from request order), a blocking handler that panics with a message as long as the limit.',
+ 'C09': ' Round 2: subscription handles dropped by the application (the automatic unsubscribe may be the send that fails), send errors on a connection that is dead both ways, client pings with a peer that goes silent (the client gives up for inactivity and that cause must reach everything pending), a peer that goes silent without pings and a transport send that never completes (then every call, batch and subscribe must still end within its request timeout; also swept as a tenth fault kind).',
+ 'C11': ' Round 2: calls that never finish before the end of the history, server-side graceful close of one session (connection with a stop channel of its own; a draining session with a call executing counts as open), a silent peer with a call executing (must still be closed for inactivity and free its slot).',
+ 'C12': ' Round 2: reply elements are attributed by the nonce of the request the peer meant them for, so id reuse between requests in flight is visible.',
+ 'C18': ' Round 2: a subscribe that was given up gets no reminder notification (and a server that stays quiet) when the request queue cannot be full.',
+ 'C19': ' Round 2: bodies beyond the request limit (must be refused in the same way whatever the framing - found defect 15), a complete call followed by padding beyond the limit, leading whitespace of 100-140 bytes cut into several chunks.',
+}
+
 NA = {
  'C13': 'method registry: RpcModule mutation needs &mut self, histories are sequential; no schedule, clock, I/O or fault can influence the outcome - not a simulation target (plain model-based property testing would decide it)',
  'C14': 'host filter: the decision is a pure function of (allow-list, Host header, URI); nothing for a scheduler or fault injector to vary',
@@ -108,7 +125,7 @@ def main():
           'evidence_file': f'/verif/evidence/{pid}.json',
           'replay_cmd_template': './check replay {path}',
           'engine': engine,
-          'level_claimed': {'category': level, 'text': text, 'design_ref': ref},
+          'level_claimed': {'category': level, 'text': text + ROUND2.get(pid, ''), 'design_ref': ref},
           'level_note': note,
           'technique': tech,
         })
